@@ -2973,7 +2973,11 @@ class Mailbox:
                 "Due to MH restrictions you can not create a "
                 f"mailbox that is just digits: '{name}'"
             )
-        if not name.strip():
+        # NOTE: That goes for every level of the name: `get_mailbox()` does not
+        #       know a mailbox that is just white space, so the superior
+        #       mailbox ` ` of ` /foo` could not be made.
+        #
+        if not all(level.strip() for level in name.split("/")):
             raise InvalidMailbox(
                 "Due to MH restrictions you can not create a "
                 f"root or mailbox that is just white space: '{name}'"
